@@ -90,6 +90,22 @@ func All(seed int64) []Input {
 	for _, pad := range []int{0, 437, 505} {
 		add(fmt.Sprintf("program-pad%d", pad), "execute", []byte(strings.Replace(programText, "% a comment\n", "% "+strings.Repeat("x", pad)+"\n", 1)))
 	}
+	// small eexec programs: everything from the eexec token to the end of the input fits
+	// into the scanner's last refill (data may arrive together with the end-of-file indication)
+	plain := []byte("3 (bar) /inside 7 def currentfile closefile\n")
+	var cipher []byte
+	for iv := byte(0); ; iv++ {
+		// a legal random prefix: the cipher text starts with a non-white-space byte and has a
+		// non-hexadecimal byte among its first four
+		cipher = indep.Encrypt(55665, append([]byte{iv, 'y', 0x80, 'z'}, plain...))
+		isHex := func(c byte) bool { return c >= '0' && c <= '9' || c >= 'a' && c <= 'f' || c >= 'A' && c <= 'F' }
+		if cipher[0] > ' ' && !(isHex(cipher[0]) && isHex(cipher[1]) && isHex(cipher[2]) && isHex(cipher[3])) {
+			break
+		}
+	}
+	add("eexec-small-binary", "execute", append([]byte("30 currentfile eexec "), cipher...))
+	add("eexec-small-hex", "execute", []byte("30 currentfile eexec\n"+fmt.Sprintf("%x", cipher)+"\n"))
+	add("eexec-small-then-clear", "execute", append(append([]byte("30 currentfile eexec "), cipher...), []byte("\n/after 5 def (tail)")...))
 	add("cmap-small", "readcmap", []byte(cmapText(2)))
 	add("cmap-large", "readcmap", []byte(cmapText(30)))
 	add("afm-small", "afm", []byte(afmText(rng, 5)))
@@ -260,3 +276,31 @@ func metricsDigest(m *afm.Metrics) string {
 	}
 	return sb.String()
 }
+
+// Erroneous returns inputs that every reader must reject or end early on in the
+// same way under every delivery: the outcome (error text and what was built up to
+// the error) is part of the result that C12 speaks of.
+func Erroneous(seed int64) []Input {
+	var out []Input
+	add := func(name, entry string, data []byte) { out = append(out, Input{name, entry, data}) }
+	add("program-stray-gt", "execute", []byte("1 2 add > 3 4"))
+	add("program-stray-gt-at-end", "execute", []byte("1 2 add >"))
+	add("program-stray-gt-before-space", "execute", []byte("1 2 add > "))
+	add("program-open-string-at-end", "execute", []byte("1 2 add (abc"))
+	add("program-open-hex-at-end", "execute", []byte("1 2 add <41"))
+	add("program-open-proc-at-end", "execute", []byte("1 2 add { 3"))
+	add("program-typecheck", "execute", []byte("1 (x) add 5"))
+	all := All(seed)
+	for _, in := range all {
+		switch in.Name {
+		case "cmap-small", "afm-small", "font-lib-pfa", "font-lib-pfb", "font-lib-binary", "font-indep-clear", "pfb-stream", "eexec-small-hex":
+			for _, frac := range []int{35, 80, 97} {
+				add(fmt.Sprintf("%s-truncated-%d%%", in.Name, frac), in.Entry, in.Data[:len(in.Data)*frac/100])
+			}
+		}
+	}
+	return out
+}
+
+// ObjDigest renders an object canonically (nested containers up to depth 6).
+func ObjDigest(o ps.Object) string { return objDigest(o, 0) }
